@@ -310,6 +310,42 @@ def copies_and_failed_loads_stream(ctx, res):
                 res.violate("C12:status-shared-between-copies", "an assignment / reset on a deep copy of a configuration changed the original's user-defined status", case)
         except Exception as e:  # noqa
             res.violate("C12:status-shared-between-copies", "copies of configurations raised %s" % type(e).__name__, dict(case, error=str(e)[:120]))
+    # (b0) the same at the level the load is called on (the fields are the root's own, no nested configuration is rebuilt)
+    for why in ("schema-validator", "missing-required"):
+        for route in ("load_tree", "json", "yaml"):
+            s = cc.Schema()
+            s.lo = cc.IntField(default=1)
+            s.hi = cc.IntField(default=10)
+            s.step = cc.IntField(default=1)
+            s.tags = cc.ListField(cc.StringField(), default=lambda: ["t"])
+            s.label = cc.StringField(required=(why == "missing-required"))
+
+            @register(s)
+            def lo_le_hi_root(c):
+                if c.lo is not None and c.hi is not None and c.lo > c.hi:
+                    raise ValueError("lo > hi")
+            cfg = s()
+            cfg.step = 3                                      # one field is user-defined before the load
+            doc = {"lo": 50, "hi": 20, "step": 5, "tags": ["a", "b"], "label": "x"} if why == "schema-validator" else {"lo": 2, "hi": 20, "step": 5, "tags": ["a", "b"]}
+            keys = ("lo", "hi", "step", "tags")
+            before = {k: (C.plain_copy(cfg._data.get(k)), cc.is_value_defined(cfg, k)) for k in keys}
+            try:
+                if route == "load_tree":
+                    cfg.load_tree(copy.deepcopy(doc))
+                else:
+                    cfg.loads(cc.ConfigFormat.get(route).dumps(cfg, doc), format=route)
+                raised = False
+            except Exception:  # noqa
+                raised = True
+            after = {k: (C.plain_copy(cfg._data.get(k)), cc.is_value_defined(cfg, k)) for k in keys}
+            case = {"stream": "failed-whole-validation", "why": why, "depth": "own-level", "route": route, "raised": raised, "before": before, "after": after}
+            res.case(stable(case), kind="failed-whole-validation:%s" % ("raised" if raised else "returned"))
+            if raised:
+                for k in keys:
+                    if not (after[k] == (doc[k], True) or after[k] == before[k]):
+                        res.violate("C12:status-after-failed-load", "after a load whose final validation failed a field is neither as loaded and user-defined nor as it was before",
+                                    dict(case, field=k))
+                        break
     # (b)
     for why in ("schema-validator", "missing-required"):
         for depth in (0, 2):
